@@ -20,6 +20,10 @@ def cyc_world(L, P, sib):
         rules["p%d.do" % j] = [S(deps=[prev])]
         prev = "p%d" % j
     targets = ["c%d" % i for i in range(L)] + ["p%d" % j for j in range(P)]
+    if L >= 2:
+        # one script that asks for two members of the cycle in one redo-ifchange
+        rules["both.do"] = [S(deps=["c0", "c%d" % (L - 1)])]
+        targets.append("both")
     if sib:
         rules["sib.do"] = [S(deps=["s"])]
         targets.append("sib")
@@ -122,7 +126,10 @@ def step_check(proj, i, obs):
         out.append(({"kind": "cycle-not-identified", "world": proj.w.name, "entry": entries, "cmd": op[0], "rc": obs["rc"]},
                     {"err": obs["err"][-700:]}))
     ran = executed(obs["trace"])
-    dup = sorted({x for x in ran if ran.count(x) > 1})
+    # (a forced `redo` of two members runs the second one again although it failed below the first: that is `redo`; what is
+    # judged is "more often than the reference says")
+    pred = (obs.get("pred") or {}).get("ran") or []
+    dup = sorted({x for x in ran if ran.count(x) > max(1, pred.count(x))})
     if dup:
         out.append(({"kind": "ran-twice", "world": proj.w.name, "targets": dup}, {"ran": ran}))
     if "sib" in op[1] and opts.get("k"):
@@ -148,6 +155,14 @@ def histories(w):
                     o = {"k": True} if k else {}
                     hs.append([[cmd, [t, "sib"], o]])
                     hs.append([[cmd, ["sib", t], o]])
+    # two members of the cycle named by ONE command (serially: the first one's build reports the cycle, the second is
+    # refused or reports it again -- never a wait)
+    members = [t for t in w.targets if t.startswith("c")]
+    if len(members) >= 2:
+        for cmd in ("ifchange", "redo"):
+            hs.append([[cmd, [members[0], members[-1]], {}]])
+            hs.append([[cmd, [members[-1], members[0]], {}]])
+            hs.append([[cmd, [members[0], members[-1]], {"k": True}]])
     return hs
 
 
